@@ -2190,4 +2190,230 @@ example : (ofLib toyLib toyPy).dec gzipN strictB [1, 7] = .ok [7] ∧ (ofLib toy
 example : (run (ofLib toyLib toyPy) okState [.mdecode false true, .mencode false gzipN, .getContent false true]).2 =
     [.done, .done, .ok [7, 8]] := by decide
 
+/-! ## deepening round 5: header-kind hypotheses removed from the idempotence theorems
+
+  `set_content_idempotent` and `decode_idempotent` assume an identity / compressed / unknown coding (`OkName`).  The
+  hypothesis is not needed: for ANY Content-Encoding value — Python bytes-codecs, text codecs that make set_content
+  raise TypeError, whatever the codec returns — repeating the call reproduces outcome and state exactly. -/
+
+private theorem encodeStep_otherKind {C : Codecs} {c : Cache} (hi : Inv C c) (d coding er : Bytes) (f : Res)
+    (h1 : kindOf (asciiLower coding) ≠ .identity) (h2 : kindOf (asciiLower coding) ≠ .cached) :
+    encodeStep c d coding er f = (f, c) := by
+  have hcd : cachedDec.contains (asciiLower coding) = false := by
+    cases h : cachedDec.contains (asciiLower coding)
+    · rfl
+    · exact absurd ((kind_cached_iff _).mpr h) h2
+  have hid := not_identity_contains h1
+  unfold encodeStep
+  dsimp only
+  rw [encHit_none_of_kind hi h2, hid, tbl_cached, hcd]
+  cases f <;> rfl
+
+private theorem setContent_gagain {C : Codecs} {c : Cache} (hi : Inv C c) (m : Msg) (v : Bytes) (fresh : Res)
+    (hf : identityEnc.contains (effName m.ce) = false → fresh = C.enc (effName m.ce) strictB v) (f2 : Res)
+    (hf2 : identityEnc.contains (effName (setContent c m (some v) fresh).2.2.ce) = false →
+      f2 = C.enc (effName (setContent c m (some v) fresh).2.2.ce) strictB v) :
+    setContent (setContent c m (some v) fresh).2.1 (setContent c m (some v) fresh).2.2 (some v) f2 =
+      ((setContent c m (some v) fresh).1, (setContent c m (some v) fresh).2.1, (setContent c m (some v) fresh).2.2) := by
+  by_cases hok : OkName (effName m.ce)
+  · rw [(setContent_again hi m v fresh hok hf f2).1, (get_after_set hi m v fresh hok hf).1]
+  · have h1 : kindOf (effName m.ce) ≠ .identity := fun h => hok (Or.inl h)
+    have h2 : kindOf (effName m.ce) ≠ .cached := fun h => hok (Or.inr (Or.inl h))
+    have he : encodeStep c v (ceOrIdentity m.ce) strictB fresh = (fresh, c) := encodeStep_otherKind hi v _ strictB fresh h1 h2
+    have hfr := hf (not_identity_contains h1)
+    cases hfc : fresh with
+    | ok x =>
+      rw [hfc] at he hf2 hfr
+      have hs : setContent c m (some v) (.ok x) = (.done, c, fixLen { m with raw := some x }) := by
+        unfold setContent; simp only; rw [he]
+      rw [hs] at hf2 ⊢
+      simp only at hf2 ⊢
+      have hf2' : f2 = .ok x := by
+        rw [fixLen_ce] at hf2
+        rw [hfr]; exact hf2 (not_identity_contains h1)
+      have he2 : encodeStep c v (ceOrIdentity (fixLen { m with raw := some x }).ce) strictB f2 = (.ok x, c) := by
+        rw [fixLen_ce, hf2']; exact he
+      have hs2 : setContent c (fixLen { m with raw := some x }) (some v) f2 =
+          (.done, c, fixLen { fixLen { m with raw := some x } with raw := some x }) := by
+        unfold setContent; simp only; rw [he2]
+      rw [hs2, fixLen_again _ x rfl]
+    | verr =>
+      rw [hfc] at he
+      have hs : setContent c m (some v) .verr = (.done, c, fixLen { m with raw := some v, ce := none }) := by
+        unfold setContent; simp only; rw [he]
+      rw [hs]
+      simp only
+      have hk' : kindOf (effName (fixLen { m with raw := some v, ce := none }).ce) = .identity := by
+        rw [fixLen_ce]; exact kind_eff_identityB
+      rw [setContent_identity hi _ v f2 hk', fixLen_again _ v rfl]
+    | str =>
+      rw [hfc] at he hf2 hfr
+      have hs : setContent c m (some v) .str = (.terr, c, m) := by unfold setContent; simp only; rw [he]
+      rw [hs] at hf2 ⊢
+      simp only at hf2 ⊢
+      have hf2' : f2 = .str := by rw [hfr]; exact hf2 (not_identity_contains h1)
+      rw [hf2']; exact hs
+    | terr =>
+      rw [hfc] at he hf2 hfr
+      have hs : setContent c m (some v) .terr = (.terr, c, m) := by unfold setContent; simp only; rw [he]
+      rw [hs] at hf2 ⊢
+      simp only at hf2 ⊢
+      have hf2' : f2 = .terr := by rw [hfr]; exact hf2 (not_identity_contains h1)
+      rw [hf2']; exact hs
+    | nil =>
+      rw [hfc] at he hf2 hfr
+      have hs : setContent c m (some v) .nil = (.terr, c, m) := by unfold setContent; simp only; rw [he]
+      rw [hs] at hf2 ⊢
+      simp only at hf2 ⊢
+      have hf2' : f2 = .nil := by rw [hfr]; exact hf2 (not_identity_contains h1)
+      rw [hf2']; exact hs
+    | done =>
+      rw [hfc] at he hf2 hfr
+      have hs : setContent c m (some v) .done = (.terr, c, m) := by unfold setContent; simp only; rw [he]
+      rw [hs] at hf2 ⊢
+      simp only at hf2 ⊢
+      have hf2' : f2 = .done := by rw [hfr]; exact hf2 (not_identity_contains h1)
+      rw [hf2']; exact hs
+
+/-- **C31 (set_content is idempotent — for EVERY Content-Encoding value).** From any state satisfying the invariant:
+    repeating `set_content(v)` reproduces the first call's outcome (completion, or the escaping TypeError) and leaves
+    both messages and the cache exactly as the first call left them — identity, compressed, unknown, Python bytes-
+    codecs and text codecs alike.  (`set_content_idempotent` without its `OkName` hypothesis.) -/
+theorem set_content_idempotent_any_coding (C : Codecs) (s : State) (hi : Inv C s.cache) (i : Bool) (v : Bytes) :
+    step C (step C s (.setContent i (some v))).1 (.setContent i (some v)) =
+      ((step C s (.setContent i (some v))).1, (step C s (.setContent i (some v))).2) := by
+  generalize ha : step C s (.setContent i (some v)) = a
+  have hc : a.1.cache = (setContent s.cache (s.msg i) (some v) (freshOf C s (.setContent i (some v)))).2.1 := by
+    rw [← ha, step_set, setMsg_cache]
+  have hm : a.1.msg i = (setContent s.cache (s.msg i) (some v) (freshOf C s (.setContent i (some v)))).2.2 := by
+    rw [← ha, step_set, setMsg_msg]
+  have h2 : a.2 = (setContent s.cache (s.msg i) (some v) (freshOf C s (.setContent i (some v)))).1 := by
+    rw [← ha, step_set]
+  have key := setContent_gagain hi (s.msg i) v (freshOf C s (.setContent i (some v))) (fresh_set C s i v)
+    (freshOf C a.1 (.setContent i (some v))) (by rw [← hm]; exact fresh_set C a.1 i v)
+  rw [step_set, hc, hm, key, ← hc, ← hm, setMsg_self, ← h2]
+
+/-- `get_content` yields bytes, or fails leaving the cache untouched — any header, whatever the codec returns -/
+private theorem getContent_gshape (c : Cache) (m : Msg) (st : Bool) (f : Res) (raw : Bytes) (hr : m.raw = some raw) :
+    (∃ d c', getContent c m st f = (.ok d, c')) ∨ (∃ r, (∀ d, r ≠ .ok d) ∧ getContent c m st f = (r, c)) := by
+  unfold getContent
+  simp only [hr]
+  cases hce : m.ce with
+  | none => left; exact ⟨raw, c, rfl⟩
+  | some x =>
+    simp only
+    cases hx : x.isEmpty
+    · simp only [Bool.false_eq_true, if_false]
+      have hc := decodeStep_err_cache c raw x strictB f
+      generalize decodeStep c raw x strictB f = p at hc
+      obtain ⟨r, c'⟩ := p
+      cases r with
+      | ok d => left; exact ⟨d, c', rfl⟩
+      | str =>
+        have : c' = c := hc (by intro d; simp)
+        subst this
+        cases st
+        · left; exact ⟨raw, c', rfl⟩
+        · right; exact ⟨.verr, by intro d; simp, rfl⟩
+      | verr =>
+        have : c' = c := hc (by intro d; simp)
+        subst this
+        cases st
+        · left; exact ⟨raw, c', rfl⟩
+        · right; exact ⟨.verr, by intro d; simp, rfl⟩
+      | terr => have : c' = c := hc (by intro d; simp); subst this; right; exact ⟨.terr, by intro d; simp, rfl⟩
+      | nil => have : c' = c := hc (by intro d; simp); subst this; right; exact ⟨.terr, by intro d; simp, rfl⟩
+      | done => have : c' = c := hc (by intro d; simp); subst this; right; exact ⟨.terr, by intro d; simp, rfl⟩
+    · left; simp only [if_true]; exact ⟨raw, c, rfl⟩
+
+private theorem msgDecode_gagain {C : Codecs} {c : Cache} (m : Msg) (st : Bool) (f : Res)
+    (hi1 : ∀ raw, m.raw = some raw → raw.isEmpty = false → Inv C (getContent c m st f).2) :
+    ((msgDecode c m st f).1 = .done ∧
+      ∀ f2, msgDecode (msgDecode c m st f).2.1 (msgDecode c m st f).2.2 st f2 =
+        (.done, (msgDecode c m st f).2.1, (msgDecode c m st f).2.2)) ∨
+    (∃ r, msgDecode c m st f = (r, c, m)) := by
+  cases hr : m.raw with
+  | none =>
+    left
+    have h : ∀ f', msgDecode c m st f' = (.done, c, m) := by intro f'; unfold msgDecode; simp only [hr]
+    rw [h f]; exact ⟨rfl, fun f2 => h f2⟩
+  | some raw =>
+    cases he : raw.isEmpty
+    · rcases getContent_gshape c m st f raw hr with ⟨d, c', hg⟩ | ⟨r, hnr, hv⟩
+      · left
+        have hic : Inv C c' := by
+          have := hi1 raw hr he
+          rw [hg] at this
+          exact this
+        have hmd : msgDecode c m st f = (.done, c', fixLen { m with raw := some d, ce := none }) := by
+          unfold msgDecode
+          simp only [hr, he, Bool.false_eq_true, if_false]
+          rw [hg]
+          simp only
+          rw [setContent_identity hic ⟨some raw, none, m.te, m.cl, m.tr, m.ver⟩ d .verr kind_eff_identityB]
+        rw [hmd]
+        refine ⟨rfl, fun f2 => ?_⟩
+        exact msgDecode_plain hic _ d (by rw [fixLen_raw]) (by rw [fixLen_ce]) (fixLen_idem _) st f2
+      · right
+        refine ⟨r, ?_⟩
+        unfold msgDecode
+        simp only [hr, he, Bool.false_eq_true, if_false]
+        rw [hv]
+        cases r with
+        | ok d => exact absurd rfl (hnr d)
+        | _ => rfl
+    · left
+      have h : ∀ f', msgDecode c m st f' = (.done, c, m) := by
+        intro f'; unfold msgDecode; simp only [hr, he, if_true]
+      rw [h f]; exact ⟨rfl, fun f2 => h f2⟩
+
+/-- **C31 (Message.decode is idempotent — for EVERY Content-Encoding value).** From any state satisfying the
+    invariant, strict or not, whatever header the message carries and whatever the codec returns (bytes, a str, an
+    error, TypeError): a second `Message.decode()` returns the same outcome as the first and leaves both messages
+    and the cache exactly as the first left them.  (`decode_idempotent` without its `OkName` hypothesis.) -/
+theorem decode_idempotent_any_coding (C : Codecs) (s : State) (hi : Inv C s.cache) (i st : Bool) :
+    step C (step C s (.mdecode i st)).1 (.mdecode i st) = step C s (.mdecode i st) := by
+  have key := @msgDecode_gagain C s.cache (s.msg i) st (freshOf C s (.mdecode i st))
+    (by
+      intro raw hr he
+      rw [fresh_mdecode C s i st raw hr he]
+      have := step_inv C s (.getContent i st) hi
+      simpa [step, stepWith] using this)
+  rcases key with ⟨hd, hag⟩ | ⟨r, hv⟩
+  · generalize ha : step C s (.mdecode i st) = a at *
+    have hc : a.1.cache = (msgDecode s.cache (s.msg i) st (freshOf C s (.mdecode i st))).2.1 := by
+      rw [← ha, step_mdecode, setMsg_cache]
+    have hm : a.1.msg i = (msgDecode s.cache (s.msg i) st (freshOf C s (.mdecode i st))).2.2 := by
+      rw [← ha, step_mdecode, setMsg_msg]
+    have h2 : a.2 = .done := by rw [← ha, step_mdecode]; exact hd
+    rw [step_mdecode, hc, hm, hag, ← hc, ← hm, setMsg_self]
+    exact Prod.ext rfl h2.symm
+  · have hs : step C s (.mdecode i st) = (s, r) := by
+      rw [step_mdecode, hv]
+      simp only
+      rw [setMsg_self]
+    rw [hs]
+    exact hs
+
+-- non-vacuity: a text codec (TypeError both times, nothing changes) and a bytes codec (same raw both times)
+example : (run toy ⟨none, ⟨some [5], some utf8N, false, some 1, .absent, .h11⟩, emptyMsg⟩
+    [.setContent false (some [6]), .setContent false (some [6])]) =
+    (⟨none, ⟨some [5], some utf8N, false, some 1, .absent, .h11⟩, emptyMsg⟩, [.terr, .terr]) := by decide
+example : (run toy ⟨none, ⟨some [5], some utf8N, false, some 1, .absent, .h11⟩, emptyMsg⟩
+    [.mdecode false true, .mdecode false true]).2 = [.verr, .verr] := by decide
+
+/-- the driver-runnable form of `contentOf` (tied to the real code's cache-neutral read-back after every op) -/
+theorem contentOf_eq_with (C : Codecs) (m : Msg) (st : Bool) :
+    contentOf C m st = contentOfWith m st
+      (match m.raw, m.ce with
+       | some raw, some ce => C.dec (asciiLower ce) strictB raw
+       | _, _ => .verr) := by
+  unfold contentOf contentOfWith uncachedDec
+  cases m.raw with
+  | none => rfl
+  | some raw =>
+    cases m.ce with
+    | none => rfl
+    | some ce => rfl
+
 end MitmVerif.Props.C31
